@@ -65,9 +65,11 @@ P['C01'] = dict(
     jobs=[_pub_job('publish_truthful', 1, 6, 7, ['puback', 'pubrec', 'pubcomp', 'bad-packet', 'reconnected', 'success-checked', 'early-delivery'])])
 P['C02'] = dict(
     level_text='Same exploration as C01 with the no-loss monitor: no accepted, un-cancelled publish completes with a transport error or try_again at any point, and from every explored state a fault-free suffix (broker reachable, answers everything) completes every request. Retransmission with the same packet identifier is checked by C03\'s monitor.',
-    level_note='Bounded liveness only: the suffix is at most 10 rounds; "eventually" beyond it is not claimed. Faults explored: connection reset at quiescent points (with and without a write in progress), lost acknowledgements, one malformed/unsolicited packet. Refused connections and silent brokers are covered in C10/C12.',
+    level_note='Bounded liveness only: the suffix is at most 10 rounds; "eventually" beyond it is not claimed. Faults explored: connection reset at quiescent points (with a write in progress failing, or succeeding locally while its bytes are lost), lost acknowledgements, one malformed/unsolicited packet, the broker obtaining a write before the client sees it complete; one or two requests, with and without Receive Maximum 1. Refused connections and silent brokers are covered in C10/C12.',
     assumptions=_pub_assume,
-    jobs=[_pub_job('no_silent_loss', 2, 5, 6, ['reconnected', 'all-requests-completed'])])
+    jobs=[_pub_job('no_silent_loss', 2, 5, 6, ['reconnected', 'all-requests-completed']),
+          dict(name='no_silent_loss_two_requests', tu='harness/w_pub.cpp', entry='h_pub', engine='B', clock=True, defs={'VK_MODE': 2, 'VK_REQS': 2, 'VK_ACK_VARIANTS': 2}, defs_quick={'VK_STEPS': 5}, defs_thorough={'VK_STEPS': 7}, reach=['reconnected', 'all-requests-completed', 'write-lost-in-flight'], samples=10),
+          dict(name='no_silent_loss_throttled', tu='harness/w_pub.cpp', entry='h_pub', engine='B', clock=True, defs={'VK_MODE': 2, 'VK_REQS': 2, 'VK_ACK_VARIANTS': 2, 'VK_RM': 1}, defs_quick={'VK_STEPS': 5}, defs_thorough={'VK_STEPS': 7}, reach=['reconnected', 'all-requests-completed'], samples=10)])
 P['C03'] = dict(
     level_text='Same exploration with the wire-history monitor: DUP=0 on the first transmission, every retransmitted PUBLISH byte-identical to the first except DUP, DUP=1 exactly when an earlier transmission was written successfully, same packet identifier, and no PUBLISH for an exchange once its successful PUBREC was consumed (only PUBREL).',
     level_note='Bounds as C01. Retransmission happens only across the single reconnect within the bound.',
@@ -118,7 +120,7 @@ P['C10'] = dict(
     assumptions=_pub_assume[:2] + ['timers fire in deadline order (virtual clock)'],
     jobs=[dict(name='connect_content', tu='harness/w_conn.cpp', entry='h_connect', engine='B', clock=True, defs={'VK_SYMCFG': 1, 'VK_ATTEMPTS': 1, 'VK_BYTES': 6}, reach=['connect-checked', 'connected'], samples=10),
           dict(name='handshake', tu='harness/w_conn.cpp', entry='h_connect', engine='B', clock=True, defs={'VK_SYMCFG': 0}, defs_quick={'VK_ATTEMPTS': 2, 'VK_BYTES': 6}, defs_thorough={'VK_ATTEMPTS': 3, 'VK_BYTES': 8},
-               reach=['connect-checked', 'connect-repeated', 'paused', 'resolve-failed', 'resolve-timeout', 'refused', 'connack-refused', 'malformed-reply', 'silent-broker', 'connected'], samples=10),
+               reach=['connect-checked', 'connect-repeated', 'paused', 'resolve-failed', 'resolve-timeout', 'refused', 'connack-refused', 'malformed-reply', 'silent-broker', 'connected', 'reconnect-after-success'], samples=10),
           dict(name='backoff', tu='harness/w_conn.cpp', entry='h_backoff', engine='B', clock=True, defs={'VK_SYMCFG': 0, 'VK_ATTEMPTS': 2, 'VK_BYTES': 6}, reach=['saturated'], samples=7),
           dict(name='broker_list', tu='harness/w_conn.cpp', entry='h_brokers', engine='B', clock=True, defs={'VK_SYMCFG': 0, 'VK_ATTEMPTS': 2, 'VK_BYTES': 6}, reach=['two-hosts', 'one-host'], samples=8)])
 
